@@ -39,6 +39,7 @@ RULE = ("`schema apply --exclude P --auto-approve` on SQLite files: excluded tab
 
 KNOWN_REBUILD_EXCL = "cli|excl|sub-resource-lost-by-sqlite-rebuild"
 KNOWN_REBUILD_SKIP = "cli|skip|nested-skip-defeated-by-sqlite-rebuild"
+KNOWN_FK_COLUMN = "cli|excl|fk-on-excluded-column-breaks-plan"
 KNOWN_REBUILD_ADDCOL = "cli|skip|skipped-add-column-breaks-sqlite-rebuild"
 
 
@@ -112,7 +113,11 @@ def run_exclude(ctx, case, verbose=False):
     want = {t["name"]: t for t in case["want"]}
     cls = "exclude-sub:" + case["fate"] if sub else "exclude"
     if rc != 0:
-        v.add("cli|excl|apply-error", "schema apply failed rc=%d: %s" % (rc, (err or out)[-600:]))
+        if sub and case["fate"].startswith("fkcol") and 'unknown column "secret" in foreign key definition' in (err + out) and after == before:
+            v.add(KNOWN_FK_COLUMN, "--exclude %s on a column that carries a foreign key: the inspected side drops the foreign key with the column, the "
+                  "file side keeps it, the plan re-creates m_s without the column but with the foreign key and fails: %s" % (case["patterns"][0], (err or out).strip()[-200:]), {"plan": stmts})
+        else:
+            v.add("cli|excl|apply-error", "schema apply failed rc=%d: %s" % (rc, (err or out)[-600:]))
     else:
         # (1) excluded tables untouched
         for x in sorted(ex):
@@ -154,8 +159,17 @@ def run_exclude(ctx, case, verbose=False):
                     else:
                         v.add("cli|excl-sub|lost|" + case["fate"], "excluded %s of m_s lost (fate %s)" % (" and ".join(lost), case["fate"]), {"plan": stmts})
                     continue
-                wf["cols"]["secret"] = ("text", False, False)
+                wf["cols"]["secret"] = fb[n]["cols"]["secret"]
                 wf["idx"]["ix_secret"] = (["a"], False)
+                # indexes / foreign keys made of the excluded column: no demand (S)
+                nd = case.get("nodemand", {"idx": [], "fks": []})
+                for i in nd["idx"]:
+                    wf["idx"].pop(i, None)
+                    got["idx"].pop(i, None)
+                for f in nd["fks"]:
+                    f = (tuple(f[0]), f[1], tuple(f[2]))
+                    wf["fks"] = [x for x in wf["fks"] if x != f]
+                    got["fks"] = [x for x in got["fks"] if x != f]
             df = L.facts_diff(n, fa.get(n), wf)
             if df:
                 fate = case.get("fates", {}).get(n, case.get("fate", "?"))
@@ -229,9 +243,11 @@ def run_skip(ctx, case, verbose=False):
     d = ctx.casedir("-s%d" % case["n"])
     db = os.path.join(d, "x.db")
     L.create_db(db, case["cur"])
-    proj = L.project_file(case["skip"], case["n"] % 3 == 2)
+    proj = L.project_file(case)
     vlib.write_files(d, {"want.hcl": L.hcl(case["want"]), "atlas.hcl": proj})
     args = ["schema", "apply", "--env", "e", "--auto-approve"]
+    if case["placement"] == "env+unrelated":
+        args += ["--var", "tenant=t1"]
     before, fb = vlib.dump_db(db), L.facts(db)
     rc, out, err = ctx.atlas_run(args, d)
     if verbose:
@@ -302,9 +318,10 @@ def run_skip(ctx, case, verbose=False):
     for k in case["skip"]:
         ctx.count("skip-kind:" + k)
     ctx.count("class:skip")
+    ctx.count("policy-placement:" + case["placement"])
     ctx.count("plan:" + ("none" if not stmts else "rebuild" if any(s.startswith("CREATE TABLE `new_") for s in stmts) else "other"))
-    ctx.eval(vlib.digest(case["skip"], [(a["kind"], a["table"]) for a in case["atoms"]], stmts), nontrivial=any(skipped) and bool(stmts))
-    report(ctx, case, v, {"skip": case["skip"], "atoms": ["%s %s.%s" % (a["kind"], a["table"], a["obj"]) for a in case["atoms"]], "statements": len(stmts)}, verbose)
+    ctx.eval(vlib.digest(case["skip"], case["placement"], [(a["kind"], a["table"]) for a in case["atoms"]], stmts), nontrivial=any(skipped) and bool(stmts))
+    report(ctx, case, v, {"skip": case["skip"], "placement": case["placement"], "atoms": ["%s %s.%s" % (a["kind"], a["table"], a["obj"]) for a in case["atoms"]], "statements": len(stmts)}, verbose)
 
 
 def report(ctx, case, v, sample, verbose):
@@ -331,7 +348,7 @@ def report(ctx, case, v, sample, verbose):
 
 
 def gen_cases(ctx):
-    nx, ns, nk = ctx.pick(28, 280), ctx.pick(8, 60), ctx.pick(30, 300)
+    nx, ns, nk = ctx.pick(28, 280), ctx.pick(14, 84), ctx.pick(30, 300)
     cases = []
     for i in range(nx):
         cases.append(L.gen_exclude_case(ctx.rand("x", i), i))
